@@ -878,6 +878,39 @@ func callBuiltin(caller *frame, fn *ssa.Builtin, args []value) value {
 		chanClose(caller, args[0])
 		return nil
 
+	case "clear":
+		switch x := args[0].(type) {
+		case []value:
+			if len(x) > 0 {
+				var et types.Type
+				if sig, ok := fn.Type().(*types.Signature); ok && sig.Params().Len() > 0 {
+					if st, ok := sig.Params().At(0).Type().Underlying().(*types.Slice); ok {
+						et = st.Elem()
+					}
+				}
+				if et == nil {
+					panic(engineError{"clear: element type of the slice not known"})
+				}
+				for i := range x {
+					x[i] = zero(et)
+				}
+				caller.i.px.onBulkStore(caller, x)
+			}
+		case *amap:
+			if x != nil {
+				caller.i.px.onMapWrite(caller, x)
+				for _, e := range x.ents {
+					if !e.deleted {
+						e.deleted = true
+						x.n--
+					}
+				}
+			}
+		default:
+			panic(engineError{"clear: unsupported operand"})
+		}
+		return nil
+
 	case "delete":
 		m := args[0].(*amap)
 		if m != nil {
